@@ -170,6 +170,12 @@ func c19Child(spec string) {
 		c19LongRun(draws)
 		return
 	}
+	if strings.HasPrefix(spec, "lonely/") {
+		var n int
+		fmt.Sscanf(spec, "lonely/%d", &n)
+		c19Lonely(n)
+		return
+	}
 	if strings.HasPrefix(spec, "gcchurn/") {
 		var rounds int
 		fmt.Sscanf(spec, "gcchurn/%d", &rounds)
@@ -297,6 +303,62 @@ func c19Child(spec string) {
 			res.MinDistinctWindow = len(d)
 		}
 	}
+	json.NewEncoder(os.Stdout).Encode(res)
+}
+
+// c19Lonely: a program with a single goroutine that draws IDs in a loop, while the only other callers are callbacks
+// the runtime starts on its own (time.AfterFunc). The process never has a second goroutine of the program's making:
+// code that decides by runtime.NumGoroutine() whether it needs its lock decides wrongly here. Run under -race.
+func c19Lonely(n int) {
+	res := c19Result{G: 1, Procs: runtime.GOMAXPROCS(0), RaceEnabled: raceEnabled}
+	var mu sync.Mutex // guards fromTimers only; the main loop never takes it before the end
+	var fromTimers []uu.ID
+	var arm func()
+	stop := false
+	arm = func() {
+		time.AfterFunc(200*time.Microsecond, func() {
+			local := make([]uu.ID, 0, 8)
+			for k := 0; k < 8; k++ {
+				local = append(local, uu.RandomID())
+			}
+			mu.Lock()
+			fromTimers = append(fromTimers, local...)
+			again := !stop
+			mu.Unlock()
+			if again {
+				arm()
+			}
+		})
+	}
+	arm()
+	mine := make([]uu.ID, 0, n)
+	for k := 0; k < n; k++ {
+		mine = append(mine, uu.RandomID())
+	}
+	mu.Lock()
+	stop = true
+	all := append(mine, fromTimers...)
+	mu.Unlock()
+	seen := make(map[uu.ID]struct{}, len(all))
+	for _, id := range all {
+		res.Draws++
+		if id.Higher>>12&0xf != 4 || id.Lower>>62 != 2 {
+			res.BadBits++
+		}
+		for b := 0; b < 64; b++ {
+			res.Ones[b] += int64(id.Lower >> uint(b) & 1)
+			res.Ones[64+b] += int64(id.Higher >> uint(b) & 1)
+		}
+		if _, dup := seen[id]; dup {
+			res.Duplicates++
+			if res.FirstDuplicate == "" {
+				res.FirstDuplicate = id.String()
+			}
+		}
+		seen[id] = struct{}{}
+	}
+	res.Distinct = int64(len(seen))
+	res.Handoffs = int64(len(fromTimers))
 	json.NewEncoder(os.Stdout).Encode(res)
 }
 
@@ -641,6 +703,8 @@ func runC19(c *rt.Ctx) {
 	}
 	// a process confined to one CPU (single-core container, taskset): code that counts CPUs at start-up takes other paths
 	jobs = append(jobs, &job{g: 8, procs: 4, rep: 0, name: "onecpu-g8-p4"}, &job{g: 2, procs: 1, rep: 0, name: "onecpu-g2-p1"})
+	// a single-goroutine program whose only other callers are timer callbacks
+	jobs = append(jobs, &job{g: 1, procs: 16, rep: 0, name: "lonely-main-plus-timers"}, &job{g: 1, procs: 2, rep: 1, name: "lonely-main-plus-timers-p2"})
 	// bursts of hundreds and thousands of simultaneous callers (a server under load): far more goroutines inside the call than CPUs
 	jobs = append(jobs, &job{g: 2048, procs: 16, rep: 0, name: "burst-g2048-p16"}, &job{g: 512, procs: 4, rep: 0, name: "burst-g512-p4"}, &job{g: 4000, procs: 2, rep: 0, name: "burst-g4000-p2"})
 	{
@@ -653,6 +717,9 @@ func runC19(c *rt.Ctx) {
 				defer wg.Done()
 				defer func() { <-sem }()
 				spec := fmt.Sprintf("%d/%d/%d/%d", j.g, j.procs, draws, c.Seed*1000+int64(j.rep))
+				if strings.HasPrefix(j.name, "lonely") {
+					spec = fmt.Sprintf("lonely/%d", draws*2)
+				}
 				j.res, j.blocks, j.stderr, j.err = runChild(j.name, spec)
 			}(j)
 		}
@@ -770,6 +837,11 @@ func runC19(c *rt.Ctx) {
 					stats = append(stats, cfgStat{g, procs, rep, int64(res.Draws), res.Handoffs, res.MaxRun, res.Distinct, res.MinDistinctWindow, len(blocks)})
 					if strings.HasPrefix(name, "onecpu") {
 						w.ClassN("config-single-cpu", 1)
+					} else if strings.HasPrefix(name, "lonely") {
+						w.ClassN("config-single-goroutine-plus-timer-callbacks", 1)
+						if res.Handoffs == 0 {
+							c.Inconclusive("configuration " + name + ": no timer callback drew an ID")
+						}
 					} else if strings.HasPrefix(name, "pause") {
 						w.ClassN("config-silence-then-burst", 1)
 					} else if strings.HasPrefix(name, "burst") {
@@ -810,6 +882,7 @@ func runC19(c *rt.Ctx) {
 	c.Require("per-bit-monitor", 1)
 	c.Require("config-silence-then-burst", int64(len(pauses)))
 	c.Require("config-burst-of-callers", 3)
+	c.Require("config-single-goroutine-plus-timer-callbacks", 2)
 	for _, g := range []int{1, 2, 8, 64} {
 		c.Require(fmt.Sprintf("config-G%d", g), int64(4*reps))
 	}
